@@ -218,7 +218,7 @@ def case(ctx):
         spec, info = G.random_blob(rng, center, size, degree=rng.choice([2, 3]), cw=(kind == "U"), mixed=rng.random() < 0.5)
         if rng.random() < 0.5:
             # few, strongly curved segments (each turns by 120 degrees)
-            segs = G.blob_segments(rng, 3, rng.choice([2, 3]), center, 0.8 * size, size, False)
+            segs = G.blob_segments(rng, rng.choice([3, 4]), rng.choice([2, 2, 3]), center, 0.8 * size, size, False, bulge=2.2)
             spec = G.ctrl_spec(segs, "float", kind == "U")
     case = Case(ctx, {"shape": spec}, "%s-%s" % (kind, "curved" if G.spec_is_curved(spec) else G.spec_num(spec)))
     base = G.build(spec)
